@@ -558,12 +558,13 @@ func genLeaf(f *fieldD, cls vclass, e *entry, r *kit.Rand) (any, bool) {
 // ---------------------------------------------------------------- type generation
 
 type typeGen struct {
-	r       *kit.Rand
-	e       *entry
-	tagKey  string
-	nextKey int
-	http    bool
-	maxDeep int
+	r        *kit.Rand
+	e        *entry
+	tagKey   string
+	nextKey  int
+	http     bool
+	maxDeep  int
+	inOptEmb bool // generating the members of an optional embedded struct: plain members only
 }
 
 func (g *typeGen) newKey() string {
@@ -664,6 +665,9 @@ func genDefault(r *kit.Rand, f *fieldD) {
 	}
 	if text == "" {
 		return
+	}
+	if _, ok := interpret(k, text); !ok {
+		return // a default the kind cannot hold makes every absent input fail; not generated
 	}
 	f.HasDef, f.Def = true, text
 }
@@ -766,10 +770,15 @@ func (g *typeGen) genStruct(depth int, nmin, nmax int) *structD {
 			f.Kind = reflect.Struct
 			f.Sub = g.genStruct(depth+1, 1, 4)
 			f.Ptr = r.Pick(3, 1)
-		case c == 4 && compositeOK && !noMaps:
+		case c == 4 && compositeOK && !noMaps && !g.inOptEmb:
 			f.Kind = reflect.Struct
 			f.Embedded = true
+			if r.Chance(0.3) {
+				f.Opt = optPlain
+				g.inOptEmb = true
+			}
 			f.Sub = g.genStruct(depth+1, 1, 3)
+			g.inOptEmb = false
 			f.Ptr = r.Pick(3, 1)
 			f.GoName = fmt.Sprintf("E%d", g.nextKey)
 		default:
@@ -797,14 +806,17 @@ func (g *typeGen) genStruct(depth int, nmin, nmax int) *structD {
 		switch {
 		case f.Embedded:
 			// untagged (required, flattened) or `,optional`
-			if r.Chance(0.3) {
-				f.Key, f.Opt = "", optPlain
+			if f.Opt == optPlain {
+				f.Key = ""
 			} else {
 				f.NoTag = true
 			}
 		default:
 			g.decorate(f, sib)
 			single := !g.http
+			if g.inOptEmb {
+				break
+			}
 			switch c := r.Pick(88, 3, 4, 2, 3); {
 			case c == 1 && single && f.Opt == optNone && !f.HasDef && f.Rng == nil && len(f.Options) == 0 && !f.FromStr:
 				f.NoTag, f.Key = true, ""
